@@ -410,7 +410,7 @@ theorem opi_stepFind (s : Stack) (tid : Tid) (t : TaskSt) (h : isOfferK tid.1 = 
 theorem opi_discoveryStart (s : Stack) : opi s.discoveryStart = opi s := by
   rcases discoveryStart_cases s with h | ⟨_, h⟩
   · rw [h]
-  · rw [h]; exact (opi_with_findTask _ _).trans (opi_createTask_find _)
+  · rw [h]; exact (opi_markFind _ _).trans ((opi_with_findTask _ _).trans (opi_createTask_find _))
 
 theorem opi_discoveryStop (s : Stack) : opi s.discoveryStop = opi s := by
   unfold discoveryStop; split
